@@ -251,6 +251,8 @@ func c16Trace(seed uint64) *kernel.Trace {
 	for i := 1; i < len(spec.Clients); i++ {
 		distCfg.BaseAddrs = append(distCfg.BaseAddrs, kernel.ActorBech(spec.Clients[i]))
 	}
+	// a third of the worlds spell some BASE_ACCOUNT ids in upper case (the previous binary kept their states under that spelling)
+	distCfg.Respell = kernel.Mix(uint64(spec.GenesisTime.UnixNano()), 9)%3 == 0
 	if dp, err := GenDistParams(r.Fork(2), distCfg); err == nil {
 		spec.Distributor = DistGenesisJSON(dp)
 	}
@@ -404,6 +406,18 @@ func toLegacyLayout(c *kernel.Chain, zeroExpAmount bool, upperOwnerKey bool) (le
 		return
 	}
 	ctx.KVStore(c.App.GetKey(disttypes.StoreKey)).Delete(disttypes.ParamsKey)
+	// the previous binary kept the state of an account under "<type>-<id as written>"
+	dstore := prefix.NewStore(ctx.KVStore(c.App.GetKey(disttypes.StoreKey)), disttypes.StateKeyPrefix)
+	for _, st := range c.App.CfedistributorKeeper.GetAllStates(ctx) {
+		if st.Account != nil && st.Account.Id != "" && st.Account.Type != "" {
+			st := st
+			oldKey := st.Account.Type + "-" + st.Account.Id
+			if oldKey != st.GetStateKey() {
+				dstore.Delete([]byte(st.GetStateKey()))
+				dstore.Set([]byte(oldKey), kernel.Enc().Marshaler.MustMarshal(&st))
+			}
+		}
+	}
 	// module versions of the previous binary
 	vm := c.App.UpgradeKeeper.GetModuleVersionMap(ctx)
 	vm[vtypes.ModuleName], vm[mintertypes.ModuleName], vm[disttypes.ModuleName] = 2, 2, 2
@@ -523,6 +537,27 @@ func c16Replay(tr *kernel.Trace) *Outcome {
 		o.InfraErr = fmt.Errorf("upgrade block did not reach the check")
 	}
 	o.Stats.Inc("probe.upgrade_executed_variant_" + extra.Variant)
+	// C03 across the upgrade: what the distributor has booked still adds up to what its main account holds
+	distBooks := func(blk int) {
+		if run.Chain.Halted != nil {
+			return
+		}
+		if pi := kernel.Catch("distributor books after upgrade", func() {
+			sum := sdk.NewDecCoins()
+			for _, st := range run.Chain.DistStates() {
+				sum = sum.Add(st.Remains...)
+			}
+			bal := sdk.NewDecCoinsFromCoins(run.Chain.App.BankKeeper.GetAllBalances(run.Chain.Ctx(), kernel.DistMainAddr())...)
+			o.Evals++
+			if !sum.IsEqual(bal) {
+				o.Violations = append(o.Violations, &kernel.Violation{Property: "C03", Check: "books-match-balance", Signature: "states-sum-differs-from-main-balance-after-upgrade", Block: blk, TxIndex: -1,
+					Message: fmt.Sprintf("block %d after the upgrade: the distributor's states add up to %s but its main account holds %s", blk-1, sum, bal)})
+			}
+		}); pi != nil {
+			_ = pi
+		}
+	}
+	distBooks(1)
 	// the chain keeps producing blocks
 	for i := 2; i < len(tr.Blocks) && run.Chain.Halted == nil && len(o.Violations) == 0; i++ {
 		b := tr.Blocks[i]
@@ -534,6 +569,7 @@ func c16Replay(tr *kernel.Trace) *Outcome {
 			pi := run.Chain.Halted
 			violate("chain-continues", "post-upgrade-halt:"+pi.Site(), "block %d after the upgrade halted the chain: %s", i-1, firstLineOf(pi.Value))
 		}
+		distBooks(i)
 	}
 	if run.Chain.Halted == nil && len(o.Violations) == 0 {
 		// after the crash/restart paths too: solvency still holds on the committed state
